@@ -72,7 +72,7 @@ Cap == ( "foo" :> "Foo" @@ "bar" :> "Bar" @@ "size" :> "Size" @@ "of" :> "Of" @@
       @@ "prefix" :> "Prefix" @@ "segment" :> "Segment" @@ "that" :> "That" @@ "alone" :> "Alone"
       @@ "takes" :> "Takes" @@ "most" :> "Most" @@ "the" :> "The" @@ "one" :> "One" @@ "hundred" :> "Hundred"
       @@ "bytes" :> "Bytes" @@ "read" :> "Read" @@ "data" :> "Data" @@ "write" :> "Write" @@ "unit" :> "Unit"
-      @@ "var" :> "Var" @@ "tup" :> "Tup" )
+      @@ "var" :> "Var" @@ "tup" :> "Tup" @@ "nam" :> "Nam" @@ "nsg" :> "Nsg" @@ "esg" :> "Esg" )
 
 LongTail == <<"this", "is", "a", "rather", "long", "prefix", "segment", "that", "alone", "takes", "most", "of",
               "the", "one", "hundred", "bytes">>
@@ -115,13 +115,20 @@ ContainerPrefixed(s, p, base) == CASE s = "preserve" -> Written(p) \o Join(base,
 
 \* the prefix words used by the generated programs (every flatten field of one struct needs its own
 \* word: the macro emits one const item per prefix, named after it, into one block)
-FlattenInfl(pi, ci) ==
-    LET w == Animals[ci] sh == (pi + ci) % 4
-    IN CASE sh = 0 -> [parts |-> <<"via", w>>, sep |-> "_", trail |-> TRUE]        \* via_cat_
-         [] sh = 1 -> [parts |-> <<"via", w>>, sep |-> "_", trail |-> FALSE]       \* via_cat
-         [] sh = 2 -> [parts |-> <<"via", w>>, sep |-> "-", trail |-> TRUE]        \* via-cat-
-         [] sh = 3 -> [parts |-> <<"via", w>> \o LongTail, sep |-> "_", trail |-> TRUE]   \* 92/93 bytes
-FlattenExact(pi, ci) == IF (pi + ci) % 2 = 0 THEN "Ex" \o Cap[Animals[ci]] \o ":" ELSE "ex_" \o Animals[ci] \o "_"
+\* pi, ci: parent / child container variant; ti: tag variant of a child entry enum (0 = none / struct child), which
+\* adds a word so that sibling enums that differ only in their tag get different prefixes
+TagIdx(tk, tsg) == CASE tk = "none" -> 0 [] tk = "name" -> (IF tsg THEN 2 ELSE 1) [] tk = "exact" -> (IF tsg THEN 4 ELSE 3)
+TagWords == <<"nam", "nsg", "exa", "esg">>
+FlattenInfl(pi, ci, ti) ==
+    LET w == <<"via", Animals[ci]>> \o (IF ti = 0 THEN <<>> ELSE <<TagWords[ti]>>)
+        sh == (pi + ci) % 4
+    IN CASE sh = 0 -> [parts |-> w, sep |-> "_", trail |-> TRUE]        \* via_cat_
+         [] sh = 1 -> [parts |-> w, sep |-> "_", trail |-> FALSE]       \* via_cat
+         [] sh = 2 -> [parts |-> w, sep |-> "-", trail |-> TRUE]        \* via-cat-
+         [] sh = 3 -> [parts |-> w \o LongTail, sep |-> "_", trail |-> TRUE]   \* 92/93 bytes (+4 with a tag word)
+FlattenExact(pi, ci, ti) ==
+    IF (pi + ci) % 2 = 0 THEN "Ex" \o Cap[Animals[ci]] \o (IF ti = 0 THEN "" ELSE Cap[TagWords[ti]]) \o ":"
+                         ELSE "ex_" \o Animals[ci] \o "_" \o (IF ti = 0 THEN "" ELSE TagWords[ti] \o "_")
 ContainerInfl(ra) == IF ra \in {"none", "kebab"} THEN [parts |-> <<"pre", "fix">>, sep |-> "_", trail |-> TRUE]
                                                 ELSE [parts |-> <<"pre", "fix">>, sep |-> "-", trail |-> TRUE]
 ContainerExact(ra) == IF ra \in {"none", "snake"} THEN "Cx:" ELSE "cx_p_"
@@ -140,6 +147,11 @@ FieldName(c, s, base) ==
       [] c.pk = "infl"  -> ContainerPrefixed(s, ContainerInfl(c.ra), base)
       [] c.pk = "exact" -> ContainerExact(c.ra) \o Ident(s, base)
 
+\* leaf kinds: plain u64 | name = ".." | unit = Byte | ignore | Option<u64> None / Some | #[metrics(value)] struct
+\* with unit = Count | sample_group value(string) enum holding its plain (A) / renamed (B) variant | sample_group
+\* &str | sample_group + name = ".." on a #[metrics(value, sample_group)] struct
+\* (the macro fails to compile an entry-enum struct variant with an `ignore` field, so "ignore" is bound to the
+\* code only in structs)
 LeafKinds == {"plain", "named", "unit", "ignore", "optnone", "optsome", "valstruct", "senumA", "senumB", "sgroup", "sgnamed"}
 LeafBase == [plain |-> <<"foo", "bar">>, unit |-> <<"size", "of">>, optnone |-> <<"opt", "val">>,
              optsome |-> <<"opt", "val">>, valstruct |-> <<"val", "wrap">>, senumA |-> <<"str", "enum">>,
@@ -175,8 +187,11 @@ VariantWords(v) == CASE v.vk = "struct" -> <<"read", "data">>
 VariantOverride(v) == "Named_" \o Pascal(VariantWords(v))
 TupleNamed(fk, ci) == (ci + PkIdx[fk]) % 3 = 0
 
-\* tag item: name_exact is copied, name is an inflectable identifier of the container; the value is the
-\* variant name in the enum's OWN rename_all ("respects rename_all and variant name, but not prefix")
+\* tag item (attribute table of #[metrics]): `name_exact` is "exact, not affected by prefix or rename_all", so it is
+\* copied behind the flatten prefixes like a `name` override; `name` is "inflectable, respects prefix and
+\* rename_all", i.e. it is named like a field of the container with that identifier.  The value is the variant
+\* name in the enum's OWN rename_all ("respects rename_all and variant name, but not prefix"); an inherited style
+\* does not reach it (inflect_no_prefix, tests/enum_attributes.rs).
 TagOut(c, s, p, v) ==
     LET nm == Concat(p) \o (IF c.tk = "exact" THEN TagExactName ELSE FieldName(c, s, TagInflWords))
         val == IF v.named THEN VariantOverride(v) ELSE VariantText(Own(c.ra, "preserve"), VariantWords(v))
@@ -225,11 +240,12 @@ Descend(fk, opt, k, ra, pk, tk, tsg) ==
     /\ (var.vk = "tuple" => fk = var.fk /\ ra = var.cra /\ pk = var.cpk)
     /\ opt \in (IF OptEdge(cur.idx, Idx(ra, pk)) THEN {"some", "none"} ELSE {"no"})
     /\ LET ci == Idx(ra, pk)
+           ti == TagIdx(tk, tsg)
            seg == CASE fk = "none"  -> <<>>
-                    [] fk = "infl"  -> <<[text |-> FlattenPrefixText(sty, FlattenInfl(cur.idx, ci)),
-                                          exact |-> FALSE, written |-> Written(FlattenInfl(cur.idx, ci)), at |-> sty]>>
-                    [] fk = "exact" -> <<[text |-> FlattenExact(cur.idx, ci),
-                                          exact |-> TRUE, written |-> FlattenExact(cur.idx, ci), at |-> sty]>>
+                    [] fk = "infl"  -> <<[text |-> FlattenPrefixText(sty, FlattenInfl(cur.idx, ci, ti)),
+                                          exact |-> FALSE, written |-> Written(FlattenInfl(cur.idx, ci, ti)), at |-> sty]>>
+                    [] fk = "exact" -> <<[text |-> FlattenExact(cur.idx, ci, ti),
+                                          exact |-> TRUE, written |-> FlattenExact(cur.idx, ci, ti), at |-> sty]>>
            st == [t |-> "D", fk |-> fk, opt |-> opt, k |-> k, ra |-> ra, pk |-> pk, tk |-> tk, tsg |-> tsg]
        IN IF opt = "none"
           THEN \* an absent Option<Child>: the whole subtree contributes nothing
@@ -314,7 +330,8 @@ AbsentEmitsNothing == (phase = "done" /\ ~out.present) => out.sg = <<>> /\ out.n
 PresentHasName == (phase = "done" /\ out.present) =>
                      /\ out.len > Len(Concat(pre))
                      /\ SubSeq(out.name, 1, Len(Concat(pre))) = Concat(pre)
-\* sample-group pairs use the item's own name and value
+\* sample-group pairs use the item's own name and value (known finding C07:sample-group-flatten-prefix: the code
+\* drops the flatten prefixes from the pair's name)
 SampleGroupSameName == (phase = "done" /\ out.sg # <<>>) => out.sg[1].k = out.name /\ out.sg[1].v = out.val
 DepthBound == depth <= DepthOf(fam) /\ Len(pre) < depth + 1
 
